@@ -1178,8 +1178,8 @@ def rule_fs_match_links(ctx: Ctx, rule: str) -> None:
         _ev, ps = tabulate_method(repo, '_wcmatch', '_Match._fs_match', {'ptype': pt}, [Opaque(x) for x in pars], inline=False, max_paths=50000)
         rows += ps
     M_ = 'pattern.fullmatch(filename)'
-    bad_w, bad_e, bad_d = [], [], []
-    n_in = 0
+    bad_w, bad_e, bad_d, bad_v, bad_f = [], [], [], [], []
+    n_in = n_v = 0
     for p in rows:
         focus(p)
         d = p.decisions
@@ -1209,6 +1209,26 @@ def rule_fs_match_links(ctx: Ctx, rule: str) -> None:
             bad_d.append(f'cache key {_tag(key)[:80]}')
             continue
         B = key[1]
+        # the verdict: a part that is a symlink fails the match for good -- the function answers False and no enclosing loop goes on
+        kt = _tag(gets[0][2][0]) if len(gets[0][2]) == 1 else ', '.join(_tag(x) for x in gets[0][2])
+        cands = [f'symlinks.get({kt})', f'os.path.islink({_tag(B)})', f'stat.S_ISLNK(os.lstat({_tag(B)}, dir_fd=dir_fd).st_mode)']
+        Ls = [d[k] for k in cands if k in d]
+        if not Ls and any(e[0] == 'except' for e in p.events):
+            Ls = [False]  # lstat failed: not a link
+        if len(Ls) != 1:
+            bad_v.append(f'the link verdict is not decided on the row ({len(Ls)} candidates among {sorted(k[:40] for k in d)[-3:]})')
+        else:
+            n_v += 1
+            at = p.events.index(gets[0])
+            goes_on = [e for e in p.events[at:] if e[0] == 'iterend' and e[2] == 'next']
+            if Ls[0]:
+                if p.ret is not False:
+                    bad_v.append(f'a symlinked part: the function returns {_tag(p.ret)}')
+                if goes_on:
+                    bad_f.append('after a symlinked part an enclosing loop goes on to its next iteration')
+            elif p.ret is not True and not p.raised and not (isinstance(p.ret, Opaque) and p.ret.tag.startswith('loop@')):
+                # (a result that depends on the iterations still to come is not this iteration's verdict)
+                bad_v.append(f'no symlink found: the function returns {_tag(p.ret)}')
         miss = [v for k, v in d.items() if k.startswith('symlinks.get(') and k.endswith(' is not None')]
         fs = [e for e in p.of('call') if e[1] in ('os.path.islink', 'os.lstat')]
         sets = [e for e in p.of('setitem') if e[1] == Opaque('symlinks')]
@@ -1238,23 +1258,13 @@ def rule_fs_match_links(ctx: Ctx, rule: str) -> None:
     ctx.ob(rule, '_wcmatch:_Match._fs_match/is_link-definitions', not bad_d, repo.loc('_wcmatch', fm.node),
            'verdict = cache[(dir_fd, base)], else os.path.islink(base) (no dir_fd) / S_ISLNK(os.lstat(base, dir_fd=dir_fd)) or False on error, written back to the cache',
            'as expected' if not bad_d else sorted(set(bad_d))[0][:220], witness="globmatch(..., dir_fd=fd) must lstat relative to the descriptor")
-    # the verdict variable is the one the function returns; inside the inspection it is set to `not <link verdict>`
-    rets = [r.value.id for r in walk_no_nested(fm.node) if isinstance(r, ast.Return) and isinstance(r.value, ast.Name)]
-    rv = rets[-1] if rets else None
-    res = [s for s in walk_no_nested(fm.node) if isinstance(s, ast.Assign) and len(s.targets) == 1 and isinstance(s.targets[0], ast.Name) and
-           s.targets[0].id == rv and isinstance(s.value, ast.UnaryOp) and isinstance(s.value.op, ast.Not) and isinstance(s.value.operand, ast.Name)]
-    ctx.ob(rule, '_wcmatch:_Match._fs_match/link-fails-match', len(res) == 1, repo.loc('_wcmatch', fm.node), '<result> = not <link verdict>, once, inside the inspection', str(len(res)))
-    # once a symlink has been found the verdict is final: every loop around the assignment is left at once
-    if res:
-        encl = [l for l in walk_no_nested(fm.node) if isinstance(l, ast.For) and any(x is res[0] for x in ast.walk(l))]
-        leaves = []
-        for l in encl:
-            has = any(isinstance(x, ast.If) and norm_src(x.test) == f'not {rv}' and any(isinstance(b, ast.Break) for b in x.body) and
-                      _innermost_loop(l, x) is l for x in ast.walk(l))
-            leaves.append(has)
-        ctx.ob(rule, '_wcmatch:_Match._fs_match/link-verdict-is-final', len(encl) == 2 and all(leaves), repo.loc('_wcmatch', res[0]),
-               '`if not matched: break` in both the per-part loop and the per-capture loop', f'loops={len(encl)}, leaves={leaves}',
-               witness="globmatch('link/x/real/deep/y.txt', '**/x/**/*.txt', G, REALPATH) must be False: a later symlink-free `**` must not revive the match")
+    if n_v < 8:
+        raise AnalysisError(f'_fs_match: only {n_v} rows decide a link verdict')
+    ctx.ob(rule, '_wcmatch:_Match._fs_match/link-fails-match', not bad_v, repo.loc('_wcmatch', fm.node), 'the result is False iff an inspected part is a symlink',
+           f'{n_v} rows agree' if not bad_v else sorted(set(bad_v))[0][:200])
+    ctx.ob(rule, '_wcmatch:_Match._fs_match/link-verdict-is-final', not bad_f, repo.loc('_wcmatch', fm.node),
+           'once a symlink has been found neither the per-part loop nor the per-capture loop goes on', 'as expected' if not bad_f else bad_f[0],
+           witness="globmatch('link/x/real/deep/y.txt', '**/x/**/*.txt', G, REALPATH) must be False: a later symlink-free `**` must not revive the match")
     # the inspected path is built on the root: base := join(root, <name up to the capture>), then join(base, part) per part
     fsargs = {norm_src(c.args[0]) for c in walk_no_nested(fm.node) if isinstance(c, ast.Call) and norm_src(c.func) in ('os.path.islink', 'os.lstat') and c.args}
     okb = len(fsargs) == 1 and next(iter(fsargs)).isidentifier()
